@@ -57,12 +57,15 @@ class C18(Prop):
                         orders[k][a], orders[k][b] = orders[k][b], orders[k][a]
             else:
                 orders = [gen.perm(rng, alts) for _ in range(nn)]
-            yield {"kind": "part", "alts": alts, "orders": dedup(orders)}
+            c = {"kind": "part", "alts": alts, "orders": dedup(orders)}
+            if rng.random() < 0.5:
+                c["store"] = gen.perm(rng, alts)      # alternatives_name not in increasing id order
+            yield c
 
     def run_impl(self, case):
         from preflibtools.properties.subdomains.ordinal.singlepeaked import k_alternative_partition as K
         prof = [(tuple((a,) for a in o), 1) for o in case["orders"]]
-        mk = lambda: gen.make_ordinal(prof, alts=case["alts"], data_type="soc")
+        mk = lambda: gen.make_ordinal(prof, alts=case.get("store", case["alts"]), data_type="soc")
         self.count("m:" + str(len(case["alts"])))
 
         def axes(r):
@@ -87,7 +90,7 @@ class C18(Prop):
             certs["axes"] = a[1]
         reqs.append({"op": "dom.nearly", "alts": case["alts"], "orders": [[[x] for x in o] for o in case["orders"]],
                      "brute": len(case["alts"]) <= 6, "certs": certs})
-        reqs.append({"op": "kalt.partition", "alts": case["alts"], "orders": case["orders"]})
+        reqs.append({"op": "kalt.partition", "alts": case.get("store", case["alts"]), "orders": case["orders"]})
         for k, r in obs["brute"].items():
             c = {"axes2": r[1]} if r[0] == "ok" and isinstance(r[1], list) else {}
             reqs.append({"op": "dom.nearly", "alts": case["alts"], "orders": [[[x] for x in o] for o in case["orders"]],
